@@ -25,7 +25,7 @@ func init() {
 			"loops-cancellable: every condition-less loop of the library has an exit governed by a select on ctx.Done(), a ctx.Err() test, a receive on the owner's done channel (the two reader loops), the error of a context-bounded or self-bounded call, a counter bound, or a socket read deadline. " +
 			"deadline-source: each blocking operation builds its context/timer from GetTimeout(op.Timeout) (send-input, interactive, RPC) or the connection-wide TimeoutOps (get-prompt, both authentications, capabilities) or its timeout parameter (callbacks), and every context-taking call below it receives that context, never a fresh Background; GetTimeout's decision table is exactly {-1 -> connection-wide, 0 -> MaxTimeout, else -> argument}. " +
 			"timeout-class: the deadline branch of each operation returns an error wrapping ErrTimeoutError; a failed implicit privilege change is wrapped in ErrPrivilegeError. " +
-			"no-read-after-return: the spawner's only exits follow an unconditional receive from the worker's result channel and the worker performs no device I/O after it sent (so a timed-out operation cannot consume later output). closed-result-nil (K7): where a worker closes its result channel and has a path to the close without a send, every dereference of the received value is nil-guarded. " +
+			"no-read-after-return: the spawner's only exits follow an unconditional receive from the worker's result channel and the worker performs no device I/O after it sent (so a timed-out operation cannot consume later output). closed-result-nil (K7): where a worker closes its result channel and has a path to the close without a send, every dereference of the received value is nil-guarded; closed-result-zero: a non-pointer result of such a worker is examined, or the worker's send-less exits are reachable only after the spawner's own deferred cancel. " +
 			"NOT decided: wall-clock slack; a transport Write that blocks; recovery of the next exchange after a stall (value-level).",
 		Assumptions: []string{"context and timer semantics of the standard library", "Channel.Read is non-blocking (it polls the queue), which is checked under C20/non-blocking-empty"},
 		Mutants: []Mutant{
@@ -60,6 +60,8 @@ func init() {
 				Edits: []Edit{{File: "channel/sendinteractive.go", Old: "\t\t\tnb, err = readUntilF(ctx, []byte(e.ChannelInput))\n\t\t\tif err != nil {\n\t\t\t\tcr <- &result{b: nil, err: err}", New: "\t\t\tnb, err = readUntilF(ctx, []byte(e.ChannelInput))\n\t\t\tif err != nil {\n\t\t\t\tcr <- &result{b: nil, err: fmt.Errorf(\"event %d: %v\", i, err)}"}}},
 			{ID: "C05-rpc-poller-conn-wide", Desc: "RPC poller bounded by the connection-wide timeout", Rule: "C05/deadline-source",
 				Edits: []Edit{{File: "driver/netconf/rpc.go", Old: "ctx, cancel := context.WithCancel(context.Background())", New: "ctx, cancel := context.WithTimeout(context.Background(), d.Channel.TimeoutOps)"}}},
+			{ID: "C05-rpc-poller-own-deadline", Desc: "RPC poller's context carries the operation deadline itself: it can close the result channel unanswered while sendRPC still waits", Rule: "C05/closed-result-zero",
+				Edits: []Edit{{File: "driver/netconf/rpc.go", Old: "ctx, cancel := context.WithCancel(context.Background())", New: "ctx, cancel := context.WithTimeout(context.Background(), d.Channel.GetTimeout(op.Timeout))"}}},
 			{ID: "C05-driver-closes-again", Desc: "generic Open closes the channel again when Channel.Open failed", Rule: "C05/no-double-close",
 				Edits: []Edit{{File: "driver/generic/driver.go", Old: "\terr := d.Channel.Open()\n\tif err != nil {\n\t\treturn err\n\t}", New: "\terr := d.Channel.Open()\n\tif err != nil {\n\t\t_ = d.Channel.Close()\n\n\t\treturn err\n\t}"}}},
 			{ID: "C05-zero-override-dropped", Desc: "per-operation timeout option ignores zero and negative values", Rule: "C05/options",
@@ -185,6 +187,7 @@ func selfBounded(fn *ssa.Function) bool {
 
 func runC05(c *Ctx, r *Report) {
 	importFoundation(c, r, "C05", "driver-options")
+	importFoundation(c, r, "C05", "read-until")
 	r.Rule("C05/poll-interval", "every sleep inside a polling loop of the channel and the drivers lasts a configured or constant delay, never an interval that grows from one pass to the next (the deadline is only looked at between sleeps)", 4)
 	checkPollInterval(c, r, "C05/poll-interval")
 	importFoundation(c, r, "C05", "callbacks")
@@ -222,6 +225,7 @@ func runC05(c *Ctx, r *Report) {
 	r.Rule("C05/opts-forwarded", "every operation of the channel and of the three drivers hands its full per-operation option list (which carries the per-operation timeout) to each option-taking library callee", 8)
 	r.Rule("C05/no-read-after-return", "spawner exits only after an unconditional receive of the worker's result; the worker performs no device I/O after sending", 4)
 	r.Rule("C05/closed-result-nil", "a value received from a result channel that its worker may close without sending is nil-checked before use", 1)
+	r.Rule("C05/closed-result-zero", "a non-pointer value received from a result channel that its worker may close without sending is examined before use, or the worker leaves without sending only once the spawner's own cancel-only context is over (an expired operation returns the timeout error, never an empty success)", 1)
 
 	checkLoopsCancellable(c, r)
 	checkGetTimeoutTable(c, r)
@@ -233,6 +237,9 @@ func runC05(c *Ctx, r *Report) {
 	checkOperationApplyLoop(c, r, "C05/op-options-applied", "driver/netconf")
 	checkNoReadAfterReturn(c, r)
 	checkClosedResultNil(c, r)
+	checkClosedResultZero(c, r, "C05/closed-result-zero")
+	r.Rule("C05/netconf-deadline-resolved", "every deadline the NETCONF driver sets up takes its duration from Channel.GetTimeout (zero = maximum holds for the hello exchange as for every RPC)", 2)
+	checkNetconfDeadlinesResolved(c, r, "C05/netconf-deadline-resolved")
 }
 
 // ---- loops ------------------------------------------------------------------------------------
